@@ -4,7 +4,7 @@ from spec import paging as SP
 from ..bits import BV, Aff, lit
 from ..interp import State, Unsupported
 from ..values import UNIT, Enum, Ref, Struct
-from .common import SIZES, U64, adt, arg_obj, bv, declare, fn_site, inner, same, size_ty, sl
+from .common import newtype, SIZES, U64, adt, arg_obj, bv, declare, fn_site, inner, same, size_ty, sl
 
 LEVEL = 'other'
 VA = 'addr::VirtAddr'
@@ -186,7 +186,7 @@ def page_ops(chk):
             for half in (('lower', 'upper') if mk == 'virt' else ('all',)):
                 def inp(st, name='p'):
                     b, r = half_va(name, half, sb) if mk == 'virt' else phys(name, sb)
-                    v = Struct(T, [Struct(AT, [b]), UNIT])
+                    v = newtype(None, T, Struct(AT, [b]))
                     declare(st, v, {name: r})
                     return v, b
                 tagc = '%s<%s> (%s)' % (tn, sname, half)
@@ -263,8 +263,8 @@ def ranges(chk):
                 def mkrange(st):
                     sb_, rs = half_va('s', half, sb) if mk == 'virt' else phys('s', sb)
                     eb_, re_ = half_va('e', half, sb) if mk == 'virt' else phys('e', sb)
-                    start = Struct(ET, [Struct(AT, [sb_]), UNIT])
-                    end = Struct(ET, [Struct(AT, [eb_]), UNIT])
+                    start = newtype(None, ET, Struct(AT, [sb_]))
+                    end = newtype(None, ET, Struct(AT, [eb_]))
                     rv = Struct(RT, [start, end])
                     declare(st, rv, {'s': rs, 'e': re_})
                     return rv, sb_, eb_
@@ -404,7 +404,7 @@ def ranges(chk):
     st = State()
     sb_, rs = half_va('s', 'lower', 21)
     eb_, re_ = half_va('e', 'lower', 21)
-    rv = Struct(PGM + 'PageRange', [Struct(PGM + 'Page', [Struct(VA, [sb_]), UNIT]), Struct(PGM + 'Page', [Struct(VA, [eb_]), UNIT])])
+    rv = Struct(PGM + 'PageRange', [newtype(None, PGM + 'Page', Struct(VA, [sb_])), newtype(None, PGM + 'Page', Struct(VA, [eb_]))])
     outs = run_case(chk, fn_, [rv], st)
     ok = len(outs) == 1 and outs[0].kind == 'ret' and same(inner(outs[0].val.fields[0]), sb_) and same(inner(outs[0].val.fields[1]), eb_)
     chk.ob('range-agreement', 'PageRange<2MiB>::as_4kib_page_range keeps both bounds', ok, 'paths %r' % (outs,), fn_site(I, fn_))
